@@ -211,10 +211,11 @@ example usage...
         else:
             raise TypeError("'%s' is not a monitor instance" % y)
         from numbers import Integral
+        _y = list(self._get_y(y)) # avoid double-conversion of y by k
         if isinstance(i, Integral):
             j = (i+1) or None # i=-1 is the last record, not an empty slice
             self._x[i:j] = y._x
-            self._y[i:j] = y._y
+            self._y[i:j] = _y
             self._id[i:j] = y._id
             return
         if type(i) in (list,numpy.ndarray):
@@ -222,7 +223,7 @@ example usage...
             x[i] = y._x
             self._x[:] = x.tolist()
             x = numpy.array(self._y)
-            x[i] = y._y
+            x[i] = _y
             self._y[:] = x.tolist()
             x = numpy.array(self._id)
             x[i] = y._id
@@ -237,7 +238,7 @@ example usage...
        #    self._y[:] = x.tolist()
         else:
             self._x[i] = y._x
-            self._y[i] = y._y
+            self._y[i] = _y
             self._id[i] = y._id
         return
 
